@@ -36,7 +36,7 @@ var c18Scales = []float64{1, -1, 255, 1e-6, 1e6, -3.7e3, 1e-3, 1e3}
 func (e *C18) ID() string    { return "C18" }
 func (e *C18) Level() string { return "exploration" }
 func (e *C18) Rule() string {
-	return "sections: (0) self-test of the guard-page sanitizer (a deliberately over-long operand must fault); (A, exhaustive) every unit impulse of the 64- and 256-point kernels at 8 signed scales over 12 decades, and every one of the 4096 unit impulses of the 64x64 2-D kernel; (B) edge vectors (constant, alternating, ramps, steps, extremes, pixel-like integers, zero); (C) seeded random vectors (uniform, normal, 0..255 integers, sparse, smooth) at scales 1e-6..1e6 in batches of 200; (D) random and image-like 64x64 inputs for the 2-D kernel; (E) dispatch: exported DCT2DHash64/DCT2DHash256 and NewPHash64Alt/NewPHash256Alt with FlagUseASM / ForwardDCT64 / ForwardDCT256 switched between the assembly and the portable kernels. Oracle per vector: bits(asm(x)) == bits(go(x)) in every lane, with the assembly operand placed flush against a PROT_NONE page (end placement and start placement alternate; the 16 KiB 2-D operand is flush on both sides; every third or fourth operand is only 4-byte aligned, 4..12 bytes from the guard page) and the canary slack re-checked; |go(x)-DCTII(x)|_inf <= 1e-5*||x||_1 against a direct O(N^2) float64 DCT-II (2.5e-5 for the two-pass 2-D kernel); float64 kernels within 1e-12*||x||_1. Non-trivial: a non-zero vector; distinct = distinct (kernel, family, scale decade, placement)."
+	return "sections: (0) self-test of the guard-page sanitizer (a deliberately over-long operand must fault); (A, exhaustive) every unit impulse of the 64- and 256-point kernels at 8 signed scales over 12 decades, and every one of the 4096 unit impulses of the 64x64 2-D kernel; (B) edge vectors (constant, alternating, ramps, steps, extremes, pixel-like integers, zero, signed zeros, subnormal constants / ramps / impulses, normal entries with subnormal differences); (C) seeded random vectors (uniform, normal, 0..255 integers, sparse, smooth) at scales 1e-6..1e6 (a tenth of them at 1e-45..1e-36, where float32 underflows gradually) in batches of 200; (D) random and image-like 64x64 inputs for the 2-D kernel; (E) dispatch: exported DCT2DHash64/DCT2DHash256 and NewPHash64Alt/NewPHash256Alt with FlagUseASM / ForwardDCT64 / ForwardDCT256 switched between the assembly and the portable kernels. Oracle per vector: bits(asm(x)) == bits(go(x)) in every lane, with the assembly operand placed flush against a PROT_NONE page (end placement and start placement alternate; the 16 KiB 2-D operand is flush on both sides; every third or fourth operand is only 4-byte aligned, 4..12 bytes from the guard page) and the canary slack re-checked; |go(x)-DCTII(x)|_inf <= 1e-5*||x||_1 against a direct O(N^2) float64 DCT-II (2.5e-5 for the two-pass 2-D kernel; asserted where the mean magnitude is at least 1e-30, below that results are subnormal and only bit-equality is asserted); float64 kernels within 1e-12*||x||_1. Non-trivial: a non-zero vector; distinct = distinct (kernel, family, scale decade, placement)."
 }
 func (e *C18) Assumptions() []string {
 	return []string{
@@ -163,7 +163,7 @@ func (e *C18) check1D(c *core.Ctx, x []float32, family string, atEnd bool) {
 	if norm > 0 {
 		c.Rec.Max("err_ratio_"+kname+"_f32", worst/norm)
 	}
-	if worst > c18Bound32*norm {
+	if worst > c18Bound32*norm && norm/float64(n) >= c18NormalRange {
 		key := "dctii:" + kname
 		if n == 256 {
 			// the listed finding: the excess over 1e-5*||x||_1 is explained by the mass that sits
@@ -286,7 +286,7 @@ func (e *C18) check2D(c *core.Ctx, x []float32, family string) {
 	if norm > 0 {
 		c.Rec.Max("err_ratio_dct2dhash64_f32", worst/norm)
 	}
-	if worst > c18Bound2D*norm {
+	if worst > c18Bound2D*norm && norm/4096 >= c18NormalRange {
 		d := detail()
 		d["output_index"], d["go"], d["dctii"], d["error_over_l1"] = wi, goOut[wi], ref[wi], worst/norm
 		c.Rec.Violation("dctii:dct2dhash64", fmt.Sprintf("portable 2-D kernel is off the 2-D DCT-II by %.3g*||x||_1 at output %d (bound 2.5e-5) [%s]", worst/norm, wi, family), d)
@@ -315,12 +315,21 @@ func (e *C18) check2D(c *core.Ctx, x []float32, family string) {
 	}
 }
 
+// c18NormalRange: below this mean magnitude the results are float32 subnormals (absolute
+// spacing 1.4e-45), where a bound relative to ||x||_1 says nothing about float32 rounding; there
+// only the bit-for-bit agreement of the kernels (and the guards) are asserted.
+const c18NormalRange = 1e-30
+
 // randVec draws one vector of a seeded family.
 func c18RandVec(r *core.Rng, n int) ([]float32, string) {
 	x := make([]float32, n)
 	scale := math.Pow(10, float64(r.Range(-6, 6)))
 	if r.Chance(1, 4) {
 		scale = 1
+	}
+	if r.Chance(1, 10) {
+		// gradual underflow: inputs, intermediates or outputs below the smallest normal float32
+		scale = math.Pow(10, float64(r.Range(-45, -36)))
 	}
 	fam := ""
 	switch r.Intn(6) {
@@ -336,8 +345,12 @@ func c18RandVec(r *core.Rng, n int) ([]float32, string) {
 		}
 	case 2:
 		fam = "pixels"
+		ps := 1.0
+		if scale < 1e-30 {
+			ps = scale
+		}
 		for i := range x {
-			x[i] = float32(r.Intn(256))
+			x[i] = float32(float64(r.Intn(256)) * ps)
 		}
 	case 3:
 		fam = "sparse"
@@ -433,6 +446,32 @@ func c18EdgeVectors(n int) (out [][]float32, names []string) {
 		}
 		return 0
 	})
+	// gradual underflow (a kernel that flushes subnormals to zero differs from one that does not)
+	for _, s := range []float64{1e-40, 1.4e-45, 3e-39, 1.1754942e-38} {
+		s := s
+		add(fmt.Sprintf("subnormal-const%g", s), func(i int) float64 { return s })
+		add(fmt.Sprintf("subnormal-alt%g", s), func(i int) float64 {
+			if i%2 == 0 {
+				return s
+			}
+			return -s
+		})
+		add(fmt.Sprintf("subnormal-ramp%g", s), func(i int) float64 { return s * float64(i) / float64(n) })
+		add(fmt.Sprintf("subnormal-impulse%g", s), func(i int) float64 {
+			if i == n/5 {
+				return s
+			}
+			return 0
+		})
+	}
+	add("near-min-normal", func(i int) float64 { return 2e-38 + float64(i%7)*3e-42 }) // normal entries, subnormal differences
+	add("normal-among-subnormal", func(i int) float64 {
+		if i%9 == 4 {
+			return 5e-37
+		}
+		return 7e-41 * float64(i%5)
+	})
+	add("pixels-scaled-2^-140", func(i int) float64 { return float64((i*37)%256) * math.Ldexp(1, -140) })
 	add("zero", func(i int) float64 { return 0 })
 	add("max255", func(i int) float64 { return 255 })
 	add("checker8", func(i int) float64 {
